@@ -764,6 +764,57 @@ fn run_decode_walk(ops: &[Op]) {
     if !last_line.starts_with(&want) { fail("decode_walk", ops, last, format!("the front to back walk ends with `{last_line}`, not with the final Exit at {}", program.bytecode.len() - 1)); }
 }
 
+// ---------------------------------------------------------------- closure capture (C06, compile-time clause)
+// A variable name inside a closure designates what the same name designates in the enclosing code at that point: the
+// innermost declaration.  ops[0] = (kind, outer value, depth): an outer local is shadowed by a loop variable of the same
+// name; a closure (nested `depth` times) in the loop body reads the name; it must see what the loop body sees.
+fn run_closure_capture(ops: &[Op]) {
+    let last = ops.len() - 1;
+    if ops[0].0 % 4 == 3 {
+        // a closure nested in a closure that names more variables than an upvalue table holds: an error, never a panic
+        let (n_outer, n_mid) = (150 + (ops[0].1 % 100) as usize, 60 + (ops[0].2.unsigned_abs() % 60) as usize);
+        let mut inner: Vec<Card> = (0..n_outer).map(|k| Card::set_global_var("g", Card::read_var(format!("m{k}")))).collect();
+        inner.extend((0..n_mid).map(|k| Card::set_global_var("g", Card::read_var(format!("c{k}")))));
+        let c2: Card = CardBody::Closure(Box::new(Function::default().with_cards(inner))).into();
+        let mut mid: Vec<Card> = (0..n_mid).map(|k| Card::set_var(format!("c{k}"), Card::scalar_int(k as i64))).collect();
+        mid.push(Card::set_var("f2", c2));
+        let c1: Card = CardBody::Closure(Box::new(Function::default().with_cards(mid))).into();
+        let mut cards: Vec<Card> = (0..n_outer).map(|k| Card::set_var(format!("m{k}"), Card::scalar_int(k as i64))).collect();
+        cards.push(Card::set_var("f1", c1));
+        let module = Module { functions: vec![("main".to_string(), Function::default().with_cards(cards))], ..Default::default() };
+        let hook = std::panic::take_hook();
+        std::panic::set_hook(Box::new(|_| {}));
+        let r = std::panic::catch_unwind(|| compile(module, None).map(|_| ()));
+        std::panic::set_hook(hook);
+        if r.is_err() { fail("closure_capture", ops, last, format!("compile() panicked on a closure that captures {n_outer} + {n_mid} variables (expected a program or a compilation error)")); }
+        return;
+    }
+    let (kind, outer, depth) = (ops[0].0 % 3, ops[0].1 as i64 + 100, 1 + (ops[0].2.unsigned_abs() % 2) as usize);
+    let name = ["i", "v", "k"][kind as usize];
+    let mut reader: Card = CardBody::Closure(Box::new(Function::default().with_cards(vec![Card::set_global_var("seen_by_closure", Card::read_var(name))]))).into();
+    for _ in 1..depth {
+        reader = CardBody::Closure(Box::new(Function::default().with_cards(vec![Card::dynamic_call(reader, vec![])]))).into();
+    }
+    let body = Card::composite_card("body", vec![Card::set_global_var("seen_directly", Card::read_var(name)), Card::dynamic_call(reader, vec![])]);
+    let looped: Card = match kind {
+        0 => Card::repeat(Card::scalar_int(1), Some("i".to_string()), body),
+        _ => {
+            let table: Card = CardBody::Array(vec![Card::scalar_int(7)]).into();
+            CardBody::ForEach(Box::new(cao_lang::compiler::ForEach { i: None, k: if kind == 2 { Some("k".into()) } else { None }, v: if kind == 1 { Some("v".into()) } else { None }, iterable: Box::new(table), body: Box::new(body) })).into()
+        }
+    };
+    let cards = vec![Card::set_var(name, Card::scalar_int(outer)), looped];
+    let module = Module { functions: vec![("main".to_string(), Function::default().with_cards(cards))], ..Default::default() };
+    let program = match compile(module, None) { Ok(p) => p, Err(e) => fail("closure_capture", ops, last, format!("does not compile: {:?}", e.payload)) };
+    let mut vm = Vm::new(()).unwrap().with_max_iter(100_000);
+    if let Err(e) = vm.run(&program) { fail("closure_capture", ops, last, format!("run failed: {:?}", e.payload)); }
+    let direct = vm.read_var_by_name("seen_directly", &program.variables);
+    let closure = vm.read_var_by_name("seen_by_closure", &program.variables);
+    if format!("{direct:?}") != format!("{closure:?}") {
+        fail("closure_capture", ops, last, format!("inside the loop `{name}` is {direct:?}, a closure created there (nesting {depth}) reads {closure:?} (the outer `{name}` is {outer})"));
+    }
+}
+
 fn dispatch(unit: &str, ops: &[Op], variant: u64) {
     VARIANT.store(variant, std::sync::atomic::Ordering::Relaxed);
     match unit {
@@ -777,6 +828,7 @@ fn dispatch(unit: &str, ops: &[Op], variant: u64) {
         "label_collision" => run_label_collision(ops),
         "error_trace" => run_error_trace(ops),
         "decode_walk" => run_decode_walk(ops),
+        "closure_capture" => run_closure_capture(ops),
         _ => { eprintln!("unknown unit {unit}"); std::process::exit(2); }
     }
 }
